@@ -169,6 +169,12 @@ impl GenerationPass for AvailableValuePass {
                 // out[n] = gen[n] U (in[n] - kill[n]) U (callee_saved if n is entry)
                 let mut out_reg_n = node.reg_values_in();
                 out_reg_n -= node.kill_reg().iter();
+                // A function's entry node is where its calls arrive: what the
+                // code that falls or jumps into it knows (about gp or tp, the
+                // registers no convention class covers) does not hold for them.
+                if node.is_function_entry() {
+                    out_reg_n = AvailableValueMap::new();
+                }
                 if node.calls_to().is_some() {
                     out_reg_n -= Register::return_addr_set().iter();
                 }
